@@ -39,8 +39,8 @@ namespace occa {
     streamRing.addRef(s);
   }
 
-  void modeStream_t::removeStreamRef(stream *s) {
-    streamRing.removeRef(s);
+  bool modeStream_t::removeStreamRef(stream *s) {
+    return streamRing.removeRef(s);
   }
 
   bool modeStream_t::needsFree() const {
